@@ -13,6 +13,7 @@ Features == {"pkg", "import", "public", "nested", "enum", "map", "group", "oneof
              "extend", "service", "customopt", "msglit", "srcret", "stdopt", "default", "reserved",
              "jsonname", "required", "features", "comments", "weird_layout",
              "jsoncollide",   \* two fields whose DEFAULT json names collide (foo_bar / fooBar): only a warning outside proto3
+             "extgroup",      \* proto2: a group declared inside an extend block (top level and nested in a message)
              "mapfeatures"}   \* editions: feature overrides on a map field (copied to the synthetic entry's key/value)
 
 (* what the language admits *)
@@ -26,9 +27,10 @@ SyntaxOK(s, f) ==
     [] f = "features" -> s = "editions"
     [] f = "mapfeatures" -> s = "editions"
     [] f = "jsoncollide" -> s = "proto2"
+    [] f = "extgroup" -> s = "proto2"
     [] OTHER -> TRUE
 
-Needs(f) == CASE f = "extend" -> {"extrange"} [] f = "public" -> {"import"} [] f = "msglit" -> {"customopt"}
+Needs(f) == CASE f = "extend" -> {"extrange"} [] f = "extgroup" -> {"extrange"} [] f = "public" -> {"import"} [] f = "msglit" -> {"customopt"}
               [] f = "srcret" -> {"customopt"} [] OTHER -> {}
 
 Valid(s, fs) == /\ s \in Syntaxes /\ fs \subseteq Features
@@ -49,7 +51,8 @@ Kinds(s, fs) ==
   \cup (IF "oneof" \in fs THEN {"oneof"} ELSE {})
   \cup (IF "p3opt" \in fs THEN {"synthetic_oneof"} ELSE {})
   \cup (IF "extrange" \in fs THEN {"extension_range"} ELSE {})
-  \cup (IF "extend" \in fs \/ "customopt" \in fs THEN {"extension"} ELSE {})
+  \cup (IF "extend" \in fs \/ "customopt" \in fs \/ "extgroup" \in fs THEN {"extension"} ELSE {})
+  \cup (IF "extgroup" \in fs THEN {"group", "group_in_extend", "nested_message"} ELSE {})
   \cup (IF "service" \in fs THEN {"service", "streaming_method"} ELSE {})
   \cup (IF "customopt" \in fs THEN {"custom_option_set"} ELSE {})
   \cup (IF "default" \in fs THEN {"default_value"} ELSE {})
